@@ -97,6 +97,19 @@ func c17R1(c *Check, validate, merge, urls *ssa.Function) {
 	if order[2] != nil && order[1] != nil {
 		c.Obl(ff.At(order[2]).CallErrNil(order[1], -1), "C17.R1", "order/urls-before-merge", P.Pos(order[2].Pos()), "merge runs after successful URL validation", "the merge is not dominated by successful URL validation (re-parses of unvalidated URLs can crash)")
 	}
+	// the URL validator parses exactly the string it is given and returns the parser's verdict: the later
+	// re-parses of stored URLs (hasRootPath, merge) rely on this
+	if vu := P.Func(pkgInt, "validateURL"); c.Anchor("C17.R1", "validateURL", vu != nil) {
+		okV := false
+		for _, ci := range callsTo(vu, "net/url.Parse", "net/url.ParseRequestURI") {
+			cc := ci.(*ssa.Call)
+			if cc.Common().Args[0] == ssa.Value(vu.Params[0]) && valueReturned(vu, resultValue(cc, 1)) {
+				okV = true
+			}
+		}
+		c.Obl(okV, "C17.R1", "validateURL-parses-its-argument", P.Pos(vu.Pos()), "validateURL returns url.Parse(argument)'s error for the unmodified argument",
+			"validateURL does not parse the unmodified string it is given (or drops the parser's error): a stored URL that later re-parses to nil is accepted, and hasRootPath / the merge dereference it")
+	}
 	// (c) refusals
 	sent := map[string]string{
 		"ErrDuplicateOIDCConfig": "filter OIDC config together with a default config",
@@ -542,6 +555,48 @@ func c17R2(c *Check, validate, merge, defaults, oidcURLs *ssa.Function) {
 				nReq++
 			}
 		}
+	}
+	// each requirement tests its own setting: authorization URI, token URI, and (static JWKS or fetcher URI)
+	need := map[string][]string{
+		"authorization URI": {idOIDCConfig + ".GetAuthorizationUri"},
+		"token URI":         {idOIDCConfig + ".GetTokenUri"},
+		"JWKS source":       {idOIDCConfig + ".GetJwks", pkgCfgOIDC + ".OIDCConfig_JwksFetcherConfig.GetJwksUri"},
+	}
+	for what, getters := range need {
+		okSite := false
+		for _, b := range merge.Blocks {
+			fs := FactsOf(merge).In[b]
+			hasErr := false
+			for _, ins := range b.Instrs {
+				if u, ok := ins.(*ssa.UnOp); ok && isLoadOfGlobal(u, g) {
+					hasErr = true
+				}
+			}
+			if !hasErr {
+				continue
+			}
+			all := true
+			for _, gid := range getters {
+				found := false
+				for cond, pol := range fs {
+					if bo, ok := cond.(*ssa.BinOp); ok {
+						if gc, _, isC := asCall(bo.X); isC && isCallTo(gc, gid) {
+							if s2, isS := constString(bo.Y); isS && s2 == "" && ((bo.Op == token.EQL && pol) || (bo.Op == token.NEQ && !pol)) {
+								found = true
+							}
+						}
+					}
+				}
+				if !found {
+					all = false
+				}
+			}
+			if all {
+				okSite = true
+			}
+		}
+		c.Obl(okSite, "C17.R2", "endpoints-or-discovery/"+what, P.Pos(merge.Pos()), "without discovery a missing "+what+" (tested by emptiness of its own setting) yields ErrRequiredURL",
+			"without a discovery URI, an empty "+what+" is no longer reported as ErrRequiredURL under the emptiness test of its own setting(s)")
 	}
 	c.Obl(nReq >= 3, "C17.R2", "endpoints-or-discovery", P.Pos(merge.Pos()), fmt.Sprintf("%d ErrRequiredURL sites under configuration_uri == \"\" (authorization, token, JWKS)", nReq),
 		fmt.Sprintf("only %d ErrRequiredURL sites under configuration_uri == \"\" (expected authorization, token and JWKS)", nReq))
